@@ -106,6 +106,25 @@ def check_case(e, env, which=None):
     return bad
 
 
+def _mixed_type_constants(e):
+    """Does e contain two constants that are == but of different type (4 / 4.0 / True)?"""
+    import pymbolic.primitives as p
+    from pyvc import api
+    consts = []
+
+    def walk(x):
+        if isinstance(x, p.Expression):
+            for c in api.children(x):
+                walk(c)
+        elif isinstance(x, (tuple, list)):
+            for c in x:
+                walk(c)
+        elif isinstance(x, (int, float, complex)):
+            consts.append(x)
+    walk(e)
+    return any(a == b and type(a) is not type(b) for i, a in enumerate(consts) for b in consts[i + 1:])
+
+
 def _has_list(e):
     import pymbolic.primitives as p
     import dataclasses
@@ -192,9 +211,12 @@ def bounded(tier, seed, procs):
                    nontrivial=isinstance(e, p.Expression),
                    sample=dict(expr=repr(e), env={k: repr(v) for k, v in env.items() if k in "xy"}))
             for name, real, spec in bad:
+                cause = "other"
+                if name != "plain" and not any(n == "plain" for n, _, _ in bad) and _mixed_type_constants(e):
+                    cause = "nested-constant-type"
                 b.fail(Failure(
                     "eval-vs-den",
-                    f"entry={name} root={type(e).__name__} expr={e!r} env={ {k: v for k, v in env.items() if k in 'xy'} }",
+                    f"cause={cause} entry={name} root={type(e).__name__} expr={e!r} env={ {k: v for k, v in env.items() if k in 'xy'} }",
                     dict(kind="eval", expr=trees.src(e), env={k: repr(v) for k, v in env.items() if k in "xy"},
                          entry=name),
                     expected=outcome.describe(spec), actual=outcome.describe(real),
